@@ -29,6 +29,24 @@ def r1(ctx, thorough):
                 coverage=(name.startswith("NT=2 eval")), timeout=2400)
 
 
+def _which_run(tr, detail):
+    """Name and result record of the rejected run (diagnosis of a rejection seen only in a log)."""
+    import json
+    import re
+    m = re.search(r"event run (\d+)", detail)
+    if not m:
+        return ""
+    try:
+        with open(tr) as fh:
+            for i, line in enumerate(fh, 1):
+                if i == int(m.group(1)):
+                    r = json.loads(line)
+                    return "[rejected run %s: %s result %s] " % (m.group(1), r.get("name"), json.dumps(r.get("result"), sort_keys=True))
+    except Exception:
+        pass
+    return ""
+
+
 def r3(ctx, thorough, binary, label, prop, nts=(1, 2, 3, 4)):
     """Record real runs (all shipped methods x termination causes x Concurrent) and validate them."""
     def one(nt):
@@ -48,7 +66,7 @@ def r3(ctx, thorough, binary, label, prop, nts=(1, 2, 3, 4)):
             os.makedirs(keep, exist_ok=True)
             dst = os.path.abspath(os.path.join(keep, "minimize-%s-nt%d-seed%d.ndjson" % (label, nt, ctx.seed)))
             shutil.copy(tr, dst)
-            ctx.violation("minimize:trace-rejected:nt%d:%s" % (nt, label), st.get("detail", "")[:900],
+            ctx.violation("minimize:trace-rejected:nt%d:%s" % (nt, label), _which_run(tr, st.get("detail", "")) + st.get("detail", "")[:900],
                           {"trace": dst, "spec": "optimize/MinimizeTrace.tla", "cfg": dict(NT=nt)})
     ctx.parallel([lambda nt=nt: one(nt) for nt in nts], width=4)
 
